@@ -277,17 +277,21 @@ fn spec_strategy(ctypes: Vec<CType>, max_width: usize, allow_cut: bool) -> impl 
     ];
     let width = prop_oneof![3 => 1usize..=2, 2 => 1usize..=max_width.max(1)];
     let sub = (prop_oneof![3 => Just(0usize), 3 => 0usize..=NMAX], prop::collection::vec(any::<u8>(), NMAX)).prop_map(|(depth, choices)| SubSel { depth, choices });
-    let cut = if allow_cut { prop_oneof![3 => Just(None), 1 => (1usize..6).prop_map(Some)].boxed() } else { Just(None).boxed() };
+    let cut = if allow_cut { prop_oneof![3 => Just(None), 2 => (1usize..16).prop_map(Some)].boxed() } else { Just(None).boxed() };
     (prop::sample::select(ctypes), width, sub, inc, cut).prop_map(|(ctype, width, sub, inc, cut_at)| CompileSpec { ctype, width, sub, inc, cut_at })
 }
 
 pub fn dd_case_strategy(p: GenParams, main_types: Vec<CType>, dds: Vec<DdKind>) -> impl Strategy<Value = DdCase> {
+    dd_case_strategy_cut(p, main_types, dds, false)
+}
+/// `main_cut`: the compilation under test may itself be interrupted by the cutoff at a generated poll
+pub fn dd_case_strategy_cut(p: GenParams, main_types: Vec<CType>, dds: Vec<DdKind>, main_cut: bool) -> impl Strategy<Value = DdCase> {
     let all = vec![CType::Exact, CType::Restricted, CType::Relaxed];
     (
         table_strategy(p),
         config_strategy(ConfigGen { max_width: 4, ..Default::default() }),
         prop::sample::select(dds),
-        spec_strategy(main_types, 4, false),
+        spec_strategy(main_types, 4, main_cut),
         prop_oneof![2 => Just(vec![]).boxed(), 1 => prop::collection::vec(spec_strategy(all, 4, true), 1..=3).boxed()],
     )
         .prop_map(|(t, cfg, dd, main, history)| DdCase { t, dd, cache: cfg.cache, rub: cfg.rub, dom: cfg.dom, rank: cfg.rank, main, history })
